@@ -1978,15 +1978,7 @@ func c01r16(rc *core.RC) {
 		if !ok {
 			return true
 		}
-		f := core.FieldOf(dinfo, rs.X)
-		if f == nil || f.Name() != "fieldMap" {
-			return true
-		}
-		sel, ok := core.Unparen(rs.X).(*ast.SelectorExpr)
-		if !ok {
-			return true
-		}
-		if t := dinfo.TypeOf(sel.X); t == nil || !strings.HasSuffix(t.String(), "decoder.structDecoder") {
+		if isProm, _ := promotionRange(p, dinfo, rs); !isProm {
 			return true
 		}
 		k++
@@ -2365,5 +2357,57 @@ func c01r20(rc *core.RC) {
 		if n == 0 {
 			rc.Unknown("encoder."+w.entry+"/addressability", fd.Pos(), "no call of typeToCodeWithPtr or structCode is reached from %s", w.entry)
 		}
+	}
+}
+
+// ---- C01.R21 the table of programs per struct type tells apart what the programs depend on ----
+
+// The program of a struct depends on whether the occurrence it is compiled for is addressable: structCode hands its
+// isPtr on to the members, and a member type with a marshal method on the pointer receiver is compiled to a call of
+// the method (addressable) or by its kind (not addressable), as encoding/json does. A recursive reference is linked
+// (linkRecursiveCode) to the one program compileContext.structTypeToCodes holds for the struct type. What a
+// reference through a pointer or a slice needs is the addressable program, through a map value the other one.
+// Obligation: the key under which (*StructCode).ToOpcode stores the program mentions the addressability the
+// program was compiled for (c.isPtr) besides the type.
+func c01r21(rc *core.RC) {
+	p := rc.P
+	fd := p.Func("encoder", "StructCode.ToOpcode")
+	key := "encoder.(*StructCode).ToOpcode/program-table-key-covers-addressability"
+	if fd == nil || fd.Body == nil {
+		rc.Unknown(key, token.NoPos, "(*StructCode).ToOpcode not found")
+		return
+	}
+	rc.Touch(p.FuncName(fd))
+	info := p.Info(fd)
+	var store *ast.IndexExpr
+	ast.Inspect(fd.Body, func(m ast.Node) bool {
+		as, ok := m.(*ast.AssignStmt)
+		if !ok {
+			return true
+		}
+		for _, l := range as.Lhs {
+			if ix, isIx := core.Unparen(l).(*ast.IndexExpr); isIx {
+				if f := core.FieldOf(info, core.Unparen(ix.X)); f != nil && f.Name() == "structTypeToCodes" {
+					store = ix
+				}
+			}
+		}
+		return true
+	})
+	if store == nil {
+		rc.Unknown(key, fd.Pos(), "no store into structTypeToCodes in (*StructCode).ToOpcode")
+		return
+	}
+	covers := false
+	ast.Inspect(store.Index, func(m ast.Node) bool {
+		if sel, ok := m.(*ast.SelectorExpr); ok && (sel.Sel.Name == "isPtr" || sel.Sel.Name == "isIndirect") {
+			covers = true
+		}
+		return true
+	})
+	if covers {
+		rc.OK(key, store.Pos(), "the key %s tells the addressable program of a type from the other one", core.Src(p.Fset, store.Index))
+	} else {
+		rc.Bad(key, store.Pos(), "the program of a struct is stored under %s, the type alone, and every recursive reference to the type is linked to the program stored last: when the type occurs both addressable and not (struct{ B *T; A T } passed by value), the values behind a recursive pointer are written by whichever program was compiled last, with or without the pointer-receiver marshal methods of their members", core.Src(p.Fset, store.Index))
 	}
 }
